@@ -565,6 +565,9 @@ class Interp:
                 self.globals[did] = self.eval_init(ini[-1], qtype(vd))
             finally:
                 self.cur_tu = saved
+        elif getattr(self, 'program_start', False) and vd.get('storageClass') != 'extern':
+            # evaluation from program start: an object with static storage duration and no initialiser is zero
+            self.globals[did] = self.zero_init(qtype(vd))
         else:
             self.globals[did] = unk('global:' + rd.get('name', '?'), qtype(vd))
         return (self.globals, did)
@@ -827,8 +830,12 @@ class Interp:
     def exec_vardecl(self, d):
         ini = [c for c in kids(d) if c.get('kind')]
         if d.get('storageClass') == 'static':
-            # static locals: evaluate the initialiser (they are constants in this code base)
-            pass
+            # static locals: evaluate the initialiser (they are constants in this code base); when evaluating from program start they
+            # are objects that keep their value between calls
+            if getattr(self, 'program_start', False):
+                if d['id'] not in self.globals:
+                    self.globals[d['id']] = self.eval_init(ini[-1], qtype(d)) if ini and d.get('init') else self.zero_init(qtype(d))
+                return
         if ini and d.get('init'):
             self.frame[d['id']] = self.eval_init(ini[-1], qtype(d))
         else:
